@@ -201,3 +201,53 @@ Fixpoint run_obs (P : params) (s : sys) (ls : list label) :=
 
 Definition sys_obs (s : sys) :=
   (dlc_obs (s_a s), dlc_obs (s_b s), Z.of_nat (length (s_ab s)), Z.of_nat (length (s_ba s)), s_ok s).
+
+(* ---------- a seeded variant (C20-e), kept to show that the credit-grant rule matters ----------
+   "a side that is out of tx credits with data queued withholds the credits it owes: they
+   will be piggy-backed on the next data frame".  With bulk data queued at BOTH ends each
+   side then waits for the other's credits: see Proofs/Rfcomm.v seeded_withhold_deadlocks. *)
+Definition needed_seeded (P : params) (d : dlc) : Z :=
+  if (0 <? needed P d) && negb (is_nil (d_tx_buf d)) && (d_tx_credits d =? 0) then 0 else needed P d.
+
+Definition process_tx_seeded (P : params) (d : dlc) : dlc * list frame * bool :=
+  ptx_loop (S (S (length (d_tx_buf d)))) d (needed_seeded P d).
+
+Definition dlc_write_seeded (P : params) (d : dlc) (data : list Z) :=
+  process_tx_seeded P (mkDlc (d_mtu d) (d_tx_credits d) (d_rx_credits d) (d_tx_buf d ++ data)).
+
+Definition dlc_on_uih_seeded (P : params) (d : dlc) (fr : frame) : dlc * list frame * list Z * bool :=
+  let '(tx1, data) :=
+    if f_pf fr then (d_tx_credits d + hd 0 (f_info fr), tl (f_info fr))
+    else (d_tx_credits d, f_info fr) in
+  let rx1 :=
+    if is_nil data then d_rx_credits d
+    else if 0 <? d_rx_credits d then d_rx_credits d - 1 else d_rx_credits d in
+  let '(d2, frs, ok) := process_tx_seeded P (mkDlc (d_mtu d) tx1 rx1 (d_tx_buf d)) in
+  (d2, frs, data, ok).
+
+Definition step_seeded (P : params) (s : sys) (l : label) : sys :=
+  match l with
+  | WriteA data =>
+      let '(a', frs, ok) := dlc_write_seeded P (s_a s) data in
+      mkSys a' (s_b s) (s_ab s ++ frs) (s_ba s) (s_rcv_a s) (s_rcv_b s) (s_ok s && ok)
+  | WriteB data =>
+      let '(b', frs, ok) := dlc_write_seeded P (s_b s) data in
+      mkSys (s_a s) b' (s_ab s) (s_ba s ++ frs) (s_rcv_a s) (s_rcv_b s) (s_ok s && ok)
+  | DeliverAB =>
+      match s_ab s with
+      | [] => s
+      | fr :: rest =>
+          let '(b', frs, data, ok) := dlc_on_uih_seeded P (s_b s) fr in
+          mkSys (s_a s) b' rest (s_ba s ++ frs) (s_rcv_a s) (s_rcv_b s ++ data) (s_ok s && ok)
+      end
+  | DeliverBA =>
+      match s_ba s with
+      | [] => s
+      | fr :: rest =>
+          let '(a', frs, data, ok) := dlc_on_uih_seeded P (s_a s) fr in
+          mkSys a' (s_b s) (s_ab s ++ frs) rest (s_rcv_a s ++ data) (s_rcv_b s) (s_ok s && ok)
+      end
+  end.
+
+Fixpoint run_seeded (P : params) (s : sys) (ls : list label) : sys :=
+  match ls with [] => s | l :: r => run_seeded P (step_seeded P s l) r end.
